@@ -140,6 +140,8 @@ class Origins:
             return ("enum", n)
         if f.startswith(VAL) and n in ("to_obj", "to_num", "to_bool"):
             return self.of_operand_d(a0, depth)  # origin-preserving
+        if re.search(r"obj_reference::ObjectRef::to_\w+$", f) and n != "to_usize":
+            return self.of_operand_d(a0, depth)  # reinterpretation of the same value
         if n in PASS and a0 is not None:
             return self.of_operand_d(a0, depth)
         if n in ("pop", "peek") and f.startswith("laythe_vm::fiber::Fiber::"):
